@@ -3,6 +3,7 @@ package c08
 import (
 	"encoding/json"
 	"fmt"
+	"math"
 	"strings"
 	"testing"
 	"unsafe"
@@ -83,6 +84,10 @@ func checkCase(c Case) (out string, err error) {
 	}
 	if c.Prec <= 0 {
 		return out, fmt.Errorf("value changed at precision %d: %q (%v) -> %q (%v)", c.Prec, c.Num, vi, out, vo)
+	}
+	if c.Prec >= len(c.Num) {
+		// more significant digits asked for than the lexeme has: nothing may be rounded away
+		return out, fmt.Errorf("value changed at precision %d, which is not below the %d characters of the lexeme: %q (%v) -> %q (%v)", c.Prec, len(c.Num), c.Num, vi, out, vo)
 	}
 	prec := c.Prec
 	if c.Func == "Decimal" && !vi.IsZero() && vi.Exp.IsInt64() && vi.Exp.Int64() > int64(prec) {
@@ -300,7 +305,7 @@ func TestCampaignLong(t *testing.T) {
 		}
 		p := rapid.SampledFrom(precisions).Draw(t, "prec")
 		if rapid.IntRange(0, 20).Draw(t, "bigprec") == 0 {
-			p = rapid.SampledFrom([]int{21, 40, 100, 1 << 30, -5, -1 << 30}).Draw(t, "precx")
+			p = rapid.SampledFrom([]int{21, 40, 100, 1 << 30, -5, -1 << 30, math.MaxInt, math.MaxInt - 1, math.MinInt}).Draw(t, "precx")
 		}
 		c := Case{fn, num, p}
 		out, err := checkCase(c)
